@@ -254,7 +254,22 @@ func c09GenOp(r *rand.Rand, doc any, o genOpts) rop {
 	return op
 }
 
+// a pointer reaches patch.Do as a token sequence or — as it does from a patch document or
+// pipeline.PatchOp — as RFC 6901 text parsed by the library (every second pointer goes that way)
+var toPathCount int
+
 func toPath(p []string) patch.Path {
+	toPathCount++
+	if toPathCount%2 == 0 && len(p) > 0 {
+		var sb strings.Builder
+		for _, t := range p {
+			sb.WriteString("/")
+			sb.WriteString(strings.ReplaceAll(strings.ReplaceAll(t, "~", "~0"), "/", "~1"))
+		}
+		if pp, err := patch.ParsePath(sb.String()); err == nil {
+			return pp
+		}
+	}
 	out := make(patch.Path, 0, len(p))
 	for _, t := range p {
 		out = append(out, patch.PathSegment(t))
@@ -443,6 +458,9 @@ func init() {
 		Gen: func(r *rand.Rand, tier string, idx int) Case {
 			o := defaultOpts()
 			o.keys = []string{"a", "b", "c", "k1", "0", "12"}
+			if r.Intn(8) == 0 { // member names are arbitrary text
+				o.keys = []string{"a", "größe", "名前", "k1", "0", "é"}
+			}
 			o.maxDepth = 3
 			start := genDoc(r, o)
 			if idx%6 == 5 {
